@@ -240,9 +240,17 @@ def load_catalogue(props):
         prop = d.upper()
         if props and prop not in props:
             continue
+        bases = {}
+        try:
+            with open(os.path.join(rd, d, "meta.json")) as f:
+                for e in json.load(f).get("refactorings", []):
+                    if e.get("base_commit"):
+                        bases[e.get("file")] = e["base_commit"]
+        except (OSError, ValueError):
+            pass
         for fn in sorted(os.listdir(os.path.join(rd, d))):
             if fn.endswith(".diff"):
-                muts.append(dict(id=f"refactor:{d}/{fn[:-5]}", prop=prop, benign=True, desc="independent behaviour-preserving refactoring", patch=os.path.join(rd, d, fn)))
+                muts.append(dict(id=f"refactor:{d}/{fn[:-5]}", prop=prop, benign=True, desc="independent behaviour-preserving refactoring", patch=os.path.join(rd, d, fn), base=bases.get(fn)))
     return muts
 
 
